@@ -301,13 +301,29 @@ rc::Gen<Case> gen_tails() {
   return make_case({{"lgk", pick({0, 1})}, {"nsel", pick({0, 1})}, {"union", pick({0, 0, 1})}, {"base", range(1, 1 << 30)}}, rc::gen::just(std::vector<Op>{}));
 }
 
+// Deterministic part of the accuracy search: the configurations in which the composite estimator works beyond the end of its interpolation
+// table with a small published RSE (lg_k 13, n = 16k and 20k, union results of every target type) are run in every check instead of
+// being left to the generator (about one case in 700).
+void enum_hll_large(std::function<bool(const Case&)> run) {
+  long w = vf::env_long("VF_WORKER", 0), nw = std::max<long>(1, vf::env_long("VF_NWORKERS", 1));
+  const uint64_t seed = static_cast<uint64_t>(vf::env_long("VF_SEED", 1));
+  long idx = 0;
+  for (int type = 0; type < 3; ++type) for (int nsel = 2; nsel <= 3; ++nsel) {
+    if ((idx++ % nw) != w) continue;
+    Case c; c.set("fam", 2); c.set("lgk", 2); c.set("n", nsel); c.set("p", 0); c.set("union", 1); c.set("type", type); c.set("mix", 0);
+    c.set("base", static_cast<int64_t>(1 + (vf::mix64(seed * 31 + static_cast<uint64_t>(idx)) & 0x3fffffff)));
+    if (!run(c)) return;
+  }
+}
+
 }  // namespace
 
 int main(int argc, char** argv) {
+  vf::Sub hl; hl.name = "hll_union_beyond_table"; hl.prop = prop; hl.enumerate = enum_hll_large;
   return vf::main_driver(argc, argv, "C06", "c06_accuracy",
                          "accuracy (statistical, weak): case = (family Theta/Tuple/HLL/CPC, lg_k, n in {k/2,2k,16k,128k}, p, single sketch or union result, HLL type) "
                          "evaluated over T independent trials on disjoint key ranges; asserts bias <= 0.15 RSE + 5 RSE/sqrt(T), spread <= 1.15 RSE (1 + 5/sqrt(2T)), "
                          "coverage >= nominal - 1.5 points - 5 sigma; sub coupon = HLL sketches of lg_k 20..21 still in coupon mode (65 000 .. 190 000 items) against their own published interval; sub tails = CPC lg_k 4..5 with 100 x the trials and tolerances 1.5 / 1.0 / 0.4 points; sub deep = HLL unions of n = 2^18 streams folded down to lg_k 4 (register values beyond 15); "
                          "non-trivial = estimation mode; distinct = distinct case text",
-                         {{"accuracy", gen, prop, 1.0}, {"deep", gen_deep, prop_deep, 0.05}, {"coupon", gen_coupon, prop_coupon, 0.03}, {"tails", gen_tails, prop_tails, 0.03}});
+                         {{"accuracy", gen, prop, 1.0}, {"deep", gen_deep, prop_deep, 0.05}, {"coupon", gen_coupon, prop_coupon, 0.03}, {"tails", gen_tails, prop_tails, 0.03}, hl});
 }
